@@ -112,6 +112,16 @@ def check_delegation(ctx, rule, only_array=False, only=None):
                     continue
                 if got != want:
                     probs.append(f"{par} <- {nf.show(got, 60)} (expected {nf.show(want, 60)})")
+            # options the pinned correlation does not have: the facade may only hand over what reproduces the default
+            # (decided by interpreting the correlation both ways) - a value kept on the object since construction, a
+            # flag, a tolerance make the method something else than the stand-alone correlation of the current fields
+            for par in it._new_optional(fi, [x for x in fi.params + fi.kwonly if x in a]):
+                try:
+                    same = it._explicit_equals_default(fi, a, [par], None)
+                except AnalysisError:
+                    same = False
+                if not same:
+                    probs.append(f"{par} <- {nf.show(it.to_nf(a[par]), 60)} (an option the documented call does not set)")
             ctx.check(
                 not probs, rule, m.qualname + ":arguments" + mode, f"{m.file}:{calls[0].line}",
                 f"{callee.split('.')[-1]} receives self.<field> in every same-named slot and the method's own pressure / pseudocritical arguments",
@@ -161,9 +171,17 @@ def check_builder(ctx, rule):
     for p_ in paths:
         distinct.setdefault(nf.key(it.to_nf(p_.value)) if p_.value is not None else None, p_)
     paths = list(distinct.values())
-    if len(paths) != 1 or not isinstance(paths[0].value, DictV):
-        raise AnalysisError(f"{q}: expected one path returning a table")
-    p = paths[0]
+    if not paths or not all(isinstance(p_.value, DictV) for p_ in paths):
+        raise AnalysisError(f"{q}: expected every path to return a table")
+    # every distinct table (a branch on the composition, on the dryness, on the size of the grid) has to be the table
+    # of the supplied inputs
+    for p in paths:
+        tag = "" if len(paths) == 1 else " [" + ", ".join(("" if c else "not ") + d[:60] for _k, c, d in p.decisions) + "]"
+        _check_builder_table(ctx, rule, P, q, f, it, p, tag)
+    _check_sutton_order(ctx, rule, P)
+
+
+def _check_builder_table(ctx, rule, P, q, f, it, p, tag):
     tbl = p.value
     calls = {}
     for e in p.events:
@@ -190,7 +208,7 @@ def check_builder(ctx, rule):
         ok = not probs
     else:
         probs.append("Sutton point / contaminant table not computed exactly once")
-    ctx.check(ok, rule, q + ":Sutton point arguments", f.where(), "the pseudocritical point is Sutton's for the supplied gravity, N2/H2S/CO2 fractions (by key) and dryness", signature="; ".join(probs)[:200], problems=probs)
+    ctx.check(ok, rule, q + ":Sutton point arguments" + tag, f.where(), "the pseudocritical point is Sutton's for the supplied gravity, N2/H2S/CO2 fractions (by key) and dryness", signature="; ".join(probs)[:200], problems=probs)
     satom = it.to_nf(calls[SQ][0].data["result"]) if False else None
     sut = nf.fn(SQ, *[it.to_nf(calls[SQ][0].data["args"][x]) for x in P.func(SQ).params]) if SQ in calls else {}
     tpc, ppc = nf.fn("item", sut, nf.const(0)), nf.fn("item", sut, nf.const(1))
@@ -198,7 +216,7 @@ def check_builder(ctx, rule):
     grid = tbl.items.get("pressure")
     okg = isinstance(grid, Vec) and grid.gen == nf.add(nf.const(10), nf.mul(nf.const(10), nf.sym("@J"))) and grid.length == nf.fn("arange_len", nf.const(10), nf.sym("maximum_pressure"), nf.const(10)) and not grid.over
     ctx.check(
-        okg, rule, q + ":pressure grid", f.where(),
+        okg, rule, q + ":pressure grid" + tag, f.where(),
         "the pressure column is np.arange(10, maximum_pressure, 10): 10 psi steps from 10 psi up to but excluding the maximum",
         signature="grid", grid=repr(grid)[:200],
     )
@@ -217,10 +235,14 @@ def check_builder(ctx, rule):
                 vn = v.gen
             args = [T, grid.gen, tpc, ppc] + ([gv("Gas Specific Gravity")] if with_g else [])
             ctx.identity(
-                rule, q + f":column {colname}", f.where(),
+                rule, q + f":column {colname}" + tag, f.where(),
                 f"every row of '{colname}' is {callee.split('.')[-1]}(T, row pressure, Sutton Tpc, Sutton ppc{', gravity' if with_g else ''})",
                 vn, nf.fn(callee, *args),
             )
+
+
+def _check_sutton_order(ctx, rule, P):
+    SQ = GAS + "pseudocritical_point_Sutton"
     # order of the returned pair
     its = interp(ctx)
     ctx.touch(SQ)
